@@ -154,7 +154,8 @@ def _check_fragment(world, ev, before, rec, after, eff, model, out):
 
 
 def _worker(args):
-    seed, length, mode, monitor_names, exe, do_corr, cfg_override, max_prs, admin_jobs, replay_history = args
+    seed, length, mode, monitor_names, exe, do_corr, cfg_override, max_prs, admin_jobs, replay_history, fault_spec = args
+    from . import faults as faults_mod
     os.environ['PYTHONHASHSEED'] = '0'
     from . import histories, monitors
     model = core.Model(exe) if exe and do_corr else None
@@ -189,15 +190,19 @@ def _worker(args):
                                         'impl': traceback.format_exc()[-1200:], 'model': None})
     try:
         if replay_history is not None:
-            histories.replay(replay_history, on_job=on_job)
+            histories.replay(replay_history, on_job=on_job, fault_for=faults_mod.build(replay_history.get('faults')))
             out['history'] = replay_history
         else:
+            spec = dict(fault_spec, seed=seed) if fault_spec else None
+            ff = faults_mod.build(spec)
             if seed % 2 == 1:
-                h, _log = histories.lifecycle_and_run(seed, on_job=on_job, mode=mode, cfg_override=cfg_override)
+                h, _log = histories.lifecycle_and_run(seed, on_job=on_job, mode=mode, cfg_override=cfg_override,
+                                                      fault_for=ff)
             else:
                 h, _log = histories.generate_and_run(seed, length=length, mode=mode, on_job=on_job,
                                                      cfg_override=cfg_override, max_prs=max_prs,
-                                                     admin_jobs=admin_jobs)
+                                                     admin_jobs=admin_jobs, fault_for=ff)
+            h['faults'] = spec
             out['history'] = h
     except Exception:
         out['error'] = traceback.format_exc()[-2000:]
@@ -209,14 +214,15 @@ def _worker(args):
 
 
 def run(ctx, seeds, length, monitor_names, mode=None, do_corr=True, cfg_override=None, max_prs=3,
-        admin_jobs=True, replay_history=None, workers=16, what=''):
+        admin_jobs=True, replay_history=None, workers=16, what='', fault_spec=None):
     """Run the histories; fill ctx (evaluations, violations, mismatches, samples, histogram)."""
     exe = ctx.model.exe if ctx.model is not None else None
     if replay_history is not None:
-        jobs = [(0, length, mode, monitor_names, exe, do_corr, cfg_override, max_prs, admin_jobs, replay_history)]
+        jobs = [(0, length, mode, monitor_names, exe, do_corr, cfg_override, max_prs, admin_jobs, replay_history,
+                 None)]
     else:
         jobs = [(s, length, mode if not isinstance(mode, (list, tuple)) else mode[i % len(mode)], monitor_names,
-                 exe, do_corr, cfg_override, max_prs, admin_jobs, None) for i, s in enumerate(seeds)]
+                 exe, do_corr, cfg_override, max_prs, admin_jobs, None, fault_spec) for i, s in enumerate(seeds)]
     mp = get_context('fork')
     with mp.Pool(min(workers, max(1, len(jobs)))) as pool:
         results = pool.map(_worker, jobs, chunksize=1)
